@@ -209,7 +209,7 @@ func fieldType(ntype reflect.Type, name string) (reflect.Type, bool) {
 			// First check all struct's fields.
 			for i := 0; i < ntype.NumField(); i++ {
 				f := ntype.Field(i)
-				if f.Name == name {
+				if f.Name == name && f.PkgPath == "" {
 					return f.Type, true
 				}
 			}
@@ -258,7 +258,7 @@ func methodType(t reflect.Type, name string) (reflect.Type, bool, bool) {
 			// First, check all struct's fields.
 			for i := 0; i < d.NumField(); i++ {
 				f := d.Field(i)
-				if !f.Anonymous && f.Name == name {
+				if !f.Anonymous && f.Name == name && f.PkgPath == "" {
 					return f.Type, false, true
 				}
 			}
